@@ -97,11 +97,21 @@ type Node struct {
 	Reqs     []ReqRecord
 	// Announced lists every (num, hash) served in answer to a "latest" query.
 	Announced map[string]bool
+	// Now is set by the simulator before it lets the node serve (scheduler
+	// step); AnnouncedAt remembers at which steps each head was announced.
+	Now         int
+	AnnouncedAt map[string][]int
 
 	// EmptyTraceOK: when false, trace_block on a block without traces still
 	// returns a synthetic "reward"-style entry; see Conventions in DESIGN §11.
 	Reorgs    int
 	MinForkAt uint64 // lowest fork point so far (MaxUint64 if none)
+
+	// Quiet: serve without recording anything (no request log, no announced
+	// heads). With a frozen chain, serving is then read-only and may be
+	// called from many goroutines at once without any lock (free-running
+	// race-detector runs: the node must not order the tasks).
+	Quiet bool
 }
 
 func New(name string, chainID, seed uint64, fill Filler) *Node {
@@ -284,9 +294,16 @@ func parseQuantity(s string) (uint64, error) {
 }
 
 func (n *Node) serveOne(url string, r Request) Reply {
-	rec := ReqRecord{Seq: len(n.Reqs), URL: url, Method: r.Method, HeadNum: n.HeadNum()}
+	rec := ReqRecord{URL: url, Method: r.Method, HeadNum: n.HeadNum()}
+	if !n.Quiet {
+		rec.Seq = len(n.Reqs)
+	}
 	rep := Reply{ID: r.ID}
-	defer func() { n.Reqs = append(n.Reqs, rec) }()
+	defer func() {
+		if !n.Quiet {
+			n.Reqs = append(n.Reqs, rec)
+		}
+	}()
 	bad := func(msg string) Reply {
 		rep.Error = &RPCError{Code: -32602, Message: msg}
 		return rep
@@ -327,7 +344,7 @@ func (n *Node) serveOne(url string, r Request) Reply {
 		}
 		rec.Served = []string{hex.EncodeToString(b.Hash)}
 		if latest {
-			n.Announced[fmt.Sprintf("%d/%x", b.Num, b.Hash)] = true
+			n.announce(b)
 		}
 		rep.Result = n.blockJSON(b, full)
 	case "eth_getLogs":
@@ -552,4 +569,16 @@ func (n *Node) blockJSON(b *Block, full bool) json.RawMessage {
 	}
 	sb.WriteString("]}")
 	return json.RawMessage(sb.String())
+}
+
+func (n *Node) announce(b *Block) {
+	if n.Quiet {
+		return
+	}
+	k := fmt.Sprintf("%d/%x", b.Num, b.Hash)
+	n.Announced[k] = true
+	if n.AnnouncedAt == nil {
+		n.AnnouncedAt = map[string][]int{}
+	}
+	n.AnnouncedAt[k] = append(n.AnnouncedAt[k], n.Now)
 }
